@@ -111,7 +111,7 @@ def random_jds(rng, cfgname, N, maxdeg, zero_frac=0.3):
 
 def _norm_edges(ret):
     """log what a callback returned as a list of [a,b] (a bare edge becomes one entry)"""
-    if isinstance(ret, tuple) and len(ret) == 2 and not isinstance(ret[0], (tuple, list)):
+    if isinstance(ret, (tuple, list)) and len(ret) == 2 and not isinstance(ret[0], (tuple, list)):
         return [[int(ret[0]), int(ret[1])]]
     return [[int(e[0]), int(e[1])] for e in ret]
 
@@ -181,6 +181,7 @@ def _execute(case):
         lib = lib_callback(shape) if isinstance(shape, str) and (not cfg["custom"] or not bare) and not case.get("simple_builder") else None
 
         def build(vs, j=j, pairs=pairs, bare=bare, lib=lib, style=style):
+            handed = vs
             vs = list(vs)
             if fault["at"] is not None and fault["what"] == "build":
                 fault["n"] += 1
@@ -189,6 +190,8 @@ def _execute(case):
                     raise _InjectedFault("build callback raised (injected crash point)")
             if lib is not None:
                 ret = lib(list(vs))
+            elif bare and case.get("bare_alias") and isinstance(handed, list) and len(handed) == 2:
+                ret = handed                  # the bare edge IS the vertex list the callback was handed (`def edge(vs): return vs`)
             elif bare:
                 ret = (vs[0], vs[1])
             else:
